@@ -64,6 +64,9 @@ def cases(tier, seed):
             t0=float(rng.uniform(-2, 5)), seed=int(rng.integers(0, 2**31)), ks=[int(x) for x in rng.integers(1, 5, size=int(rng.integers(1, 4)))],
             forcing=bool(rng.random() < 0.7), _cost=M * M,
         )
+        if rng.random() < 0.12 and fam != 'mass':
+            c['dtexp'] = float(rng.uniform(-11, -6))
+            c['stiff'] = float(10 ** (-c['dtexp']) * rng.uniform(0.3, 3))
         cs.append(c)
     # every QDelta name at least once per implicit/explicit role on the default node set
     for nm in names:
@@ -116,6 +119,9 @@ def _prob(case, rng, need_B, mass=False):
     n, cplx = case['n'], case['cplx']
     A = rand_matrix(rng, n, 'stable', cplx)
     B = rand_matrix(rng, n, 'any', cplx, scale=0.7)
+    if case.get('stiff'):
+        # tiny step with an operator of size 1/dt: dt*A stays O(1) while dt*QDelta entries fall below any absolute threshold
+        A, B = A * case['stiff'], B * case['stiff']
     pp = dict(A=A)
     if need_B:
         pp['B'] = B
@@ -384,6 +390,22 @@ def run_rk(case, r):
             exp2 = u0 + dt * (w2 @ (Fi + Fe))
         e = float(np.max(np.abs(arr(L.sweep.u_secondary) - exp2)))
         r.check(e <= 1e-12 * max(cond, 10) * scale, 'rk-secondary', f'{r.key}: secondary (embedded) value differs from u0+dt*bhat^T F by {e:.3e}')
+    # integrate() over the stages: dt*(Q_impl F_impl + Q_expl F_expl) = U_m - u0 (stage form) with the class' own tableaux
+    integ = L.sweep.integrate()
+    got_int = np.array([arr(x) for x in integ])
+    # (with the right-hand sides the sweeper has stored: stiffly accurate schemes leave the last one unevaluated on purpose)
+    if imex:
+        Fi_s = np.array([arr(L.f[m].impl) for m in range(1, s + 1)])
+        Fe_s = np.array([arr(L.f[m].expl) for m in range(1, s + 1)])
+        exp_int = dt * (AI @ Fi_s + AE @ Fe_s)
+    else:
+        Ff_s = np.array([full_f(L.f[m]) for m in range(1, s + 1)])
+        exp_int = dt * (AI @ Ff_s)
+    if got_int.shape == exp_int.shape:
+        e = float(np.max(np.abs(got_int - exp_int)))
+        r.check(e <= 1e-12 * max(cond, 10) * scale, 'integrate', f'{r.key}: integrate() differs from dt*(Q F) over the stages by {e:.3e}')
+    else:
+        r.check(False, 'integrate', f'{r.key}: integrate() returned {got_int.shape}, expected {exp_int.shape}')
     r.check(np.array_equal(arr(L.u[0]), u0), 'u0-untouched', f'{r.key}: RK sweep changed u[0]')
     r.nontrivial = True
     r.observe('rk_class', cls.__name__)
